@@ -19,7 +19,7 @@ LEVEL = "exploration"
 RULE = ("every built-in data command x 1..5 inputs x rank 1-3 shapes x int/float dtypes x mask styles (nomask, all-false, random, "
         "single cell, all-but-one, all) x 3 payloads under the mask; CSV cases vary the number stored in missing cells; distinct by "
         "(command, n, rank, dtypes, mask classes, params)")
-REQUIRED_COUNTERS = ["mask_superset_checks", "mask_exact_checks", "payload_variation_checks", "masked_input_cells", "csv_payload_checks", "follow_up_mask_checks", "netcdf_fill_mask_checks"]
+REQUIRED_COUNTERS = ["mask_superset_checks", "mask_exact_checks", "payload_variation_checks", "masked_input_cells", "csv_payload_checks", "follow_up_mask_checks", "netcdf_fill_mask_checks", "large_rasters_checked"]
 ASSUMPTIONS = ["what is stored under result masks and fill values are not judged", "NaN/inf and zero-length arrays are never generated",
                "cases where the reference is undefined (constant arrays, equal thresholds, zero weight sums) only get check (a) and (c)"]
 
@@ -66,6 +66,10 @@ def cases(ctx):
                "chain": rng.choice([["Copy"], ["Sum"], ["Normalize"], ["CvtToFuzzy"], ["Mean"], ["Multiply"]])}
     for _ in range(ctx.n(160, 6000)):
         yield gen_csv_case(rng)
+    from mpv import big
+    for i in range(ctx.n(3, 30)):
+        j = i * ctx.nshards + ctx.shard
+        yield {"kind": "big", "cmd": big.NAMES[(j * 7) % len(big.NAMES)], "shape": list(big.SHAPES[j % len(big.SHAPES)]), "rseed": rng.randrange(10 ** 9)}
 
 
 def gen_csv_case(rng):
@@ -137,7 +141,53 @@ def run_ncread(ctx, case):
             ctx.fail("ncread:%s:missing-cell-present" % "+".join(case["chain"]), {"result_mask": rm, "want_at_least": want})
 
 
+def run_big(ctx, case):
+    """Rasters of more than a million cells: missing exactly where an input is missing (or the divisor is zero), and the same
+    non-missing values whatever is stored underneath the missing cells."""
+    from mpv import big
+    cmd, shape = case["cmd"], tuple(case["shape"])
+    params, fuzzy_in = big.ELEMENTWISE[cmd], cmd in arr.FUZZY_INPUT
+    inputs = big.gen_inputs(cmd, shape, case["rseed"], True)
+    ctx.feature(("big", cmd, len(shape)))
+    union = _union_mask(inputs)
+    want = union.copy()
+    if cmd == "ADividedByB":
+        want |= (numpy.ma.getdata(inputs[1]) == 0)
+    ctx.count("masked_input_cells", int(union.sum()))
+    digs = []
+    for payload in (None, 1e30 if not fuzzy_in else 0.25, float("nan")):
+        ins = []
+        for a in inputs:
+            d = numpy.ma.getdata(a).copy()
+            if payload is not None:
+                d[numpy.ma.getmaskarray(a)] = payload
+            ins.append(numpy.ma.array(d, mask=numpy.ma.getmaskarray(a).copy()))
+        out, _ = arr.run_cmd(cmd, ins, params, fuzzy_inputs=fuzzy_in)
+        if not out.ok:
+            ctx.fail("%s:raises-%s:large-raster" % (cmd, out.inner() or out.err), {"shape": list(shape), "error": repr(out.exc)[:300]})
+            return
+        res = out.value
+        if not isinstance(res, numpy.ndarray) or res.shape != shape:
+            ctx.dontcare("result shape differs (C05)")
+            return
+        rmask = numpy.ma.getmaskarray(res)
+        if payload is None:
+            ctx.count("mask_superset_checks")
+            ctx.count("mask_exact_checks")
+            ctx.count("large_rasters_checked")
+            if (rmask != want).any():
+                i = int(numpy.flatnonzero((rmask != want).ravel())[0])
+                ctx.fail("%s:%s:large-raster" % (cmd, "missing-cell-present" if want.ravel()[i] else "valid-cell-missing"), {"cell": i, "cells": int(res.size), "shape": list(shape), "params": params})
+                return
+        digs.append(_vis_digest(res))
+    ctx.count("payload_variation_checks")
+    if len(set(digs)) > 1:
+        ctx.fail("%s:payload-leaks-into-values:large-raster" % cmd, {"shape": list(shape), "which": [i for i, d in enumerate(digs) if d != digs[0]], "params": params})
+
+
 def run_case(ctx, case):
+    if case["kind"] == "big":
+        return run_big(ctx, case)
     if case["kind"] == "ncread":
         return run_ncread(ctx, case)
     if case["kind"] == "csv":
